@@ -96,6 +96,37 @@ func newSolver(workDir string, timeout int, par int, agree bool) *Solver {
 
 // solve discharges one obligation: unsat = discharged (or, for cover obligations, sat = ok).
 func (sv *Solver) solve(un *Unit, o *Obl) {
+	if len(o.Parts) > 1 {
+		// a conjunction of independent goals (one per return site): one query each; all must be discharged
+		var subs []*Obl
+		var wg sync.WaitGroup
+		for i, p := range o.Parts {
+			sub := &Obl{Name: fmt.Sprintf("%s~part%d", o.Name, i+1), Kind: o.Kind, Guard: o.Guard, Goal: p, NFacts: o.NFacts, Fn: o.Fn, Text: o.Text}
+			subs = append(subs, sub)
+			wg.Add(1)
+			go func(sub *Obl) { defer wg.Done(); sv.solve(un, sub) }(sub)
+		}
+		wg.Wait()
+		o.Status = "discharged"
+		for _, sub := range subs {
+			o.Time += sub.Time
+			if sub.Status == "discharged" {
+				o.Solver = sub.Solver
+				continue
+			}
+			if o.Status == "discharged" || sub.Status == "failed" {
+				o.Status, o.Output, o.Model, o.SmtFile, o.Solver, o.Candidate = sub.Status, sub.Output, sub.Model, sub.SmtFile, sub.Solver, sub.Candidate
+			}
+		}
+		if o.Status == "discharged" {
+			o.SmtFile = subs[0].SmtFile
+			o.Output = fmt.Sprintf("unsat (%d return sites, one query each)", len(subs))
+			sv.mu.Lock()
+			sv.byBackend[o.Solver] -= len(subs) - 1 // count the obligation once
+			sv.mu.Unlock()
+		}
+		return
+	}
 	file := filepath.Join(sv.workDir, sanitize(o.Name)+".smt2")
 	if len(file) > 200 {
 		file = filepath.Join(sv.workDir, fmt.Sprintf("%s_%x.smt2", sanitize(o.Name)[:120], hashStr(o.Name)))
